@@ -9,6 +9,7 @@ pub mod oracle;
 pub mod refgram;
 pub mod report;
 pub mod rng;
+pub mod wgen;
 
 /// build configuration name derived from the enabled cargo features (recorded in every event log)
 pub fn config_name() -> String {
